@@ -7,6 +7,7 @@ import (
 	"math/rand"
 	"reflect"
 	"strings"
+	"sync"
 	"sync/atomic"
 	"time"
 
@@ -506,6 +507,113 @@ func c11Kinds(r *Run, idx int) {
 	r.Distinct(fmt.Sprintf("kinds/%s/M%d", kind, M))
 }
 
+// c11ReclaimAfterLoad: the loaded cache keeps C04's promise for the restored deadlines. A cache that has been up
+// for minutes to days saves entries with TTLs on every wheel level; the loaded cache is then stepped through virtual
+// time with the tick body run after each step: a restored entry whose deadline plus one finest tick lies at or
+// before the tick time must no longer be resident, and each is reported EXPIRED once, not before its deadline.
+func c11ReclaimAfterLoad(r *Run, idx int) {
+	rng := r.Rng(int64(11800 + idx))
+	src, err := theine.NewBuilder[int, int64](1000).Build()
+	if err != nil {
+		r.Broken("build: %v", err)
+		return
+	}
+	defer src.Close()
+	uptime := []time.Duration{3 * time.Minute, 2 * time.Hour, 3 * 24 * time.Hour, 40 * 24 * time.Hour}[rng.Intn(4)]
+	src.VerifStore().VerifShiftClock(uptime, true)
+	src.VerifStore().VerifRefreshClock()
+	n := 80 + rng.Intn(120)
+	for k := 0; k < n; k++ {
+		var ttl time.Duration
+		switch rng.Intn(4) {
+		case 0:
+			ttl = time.Duration(2+rng.Intn(55)) * time.Second
+		case 1:
+			ttl = time.Duration(70+rng.Intn(3000)) * time.Second
+		case 2:
+			ttl = time.Duration(75+rng.Intn(600)) * time.Minute
+		default:
+			ttl = time.Duration(40+rng.Intn(100)) * time.Hour
+		}
+		src.SetWithTTL(k, int64(k)+1, 1, ttl)
+	}
+	src.Wait()
+	var buf bytes.Buffer
+	if err := src.SaveCache(2, &buf); err != nil {
+		r.Broken("save: %v", err)
+		return
+	}
+	var mu sync.Mutex
+	type nt struct {
+		key int
+		rs  theine.RemoveReason
+		at  int64
+	}
+	var notes []nt
+	var dst *theine.Cache[int, int64]
+	dst, err = theine.NewBuilder[int, int64](1000).RemovalListener(func(k int, v int64, rs theine.RemoveReason) {
+		mu.Lock()
+		notes = append(notes, nt{k, rs, dst.VerifStore().VerifNowNano()})
+		mu.Unlock()
+	}).Build()
+	if err != nil {
+		r.Broken("build: %v", err)
+		return
+	}
+	defer dst.Close()
+	if err := dst.LoadCache(2, &buf); err != nil {
+		r.Broken("load: %v", err)
+		return
+	}
+	st := dst.VerifStore()
+	deadline := map[int]int64{}
+	for _, e := range st.VerifSnapshot().Map {
+		if e.Expire != 0 {
+			deadline[e.Key] = e.Expire
+		}
+	}
+	restored := len(deadline)
+	fail := func(key, what string) {
+		r.Violate(key+"/after-loadcache", fmt.Sprintf("reclaim round %d (saving cache up for %v, %d TTL entries restored): %s", idx, uptime, restored, what), map[string]any{"round": idx, "uptime_of_the_saving_cache": uptime.String()})
+	}
+	consumed := 0
+	late := map[int]bool{}
+	for t := 0; t < 80 && len(deadline) > 0; t++ {
+		gap := []time.Duration{time.Second, time.Duration(1+rng.Intn(90)) * time.Second, time.Duration(1+rng.Intn(90)) * time.Minute, time.Duration(1+rng.Intn(30)) * time.Hour}[rng.Intn(4)]
+		st.VerifShiftClock(gap, true)
+		st.VerifTick()
+		dst.Wait()
+		now := st.VerifNowNano()
+		mu.Lock()
+		fresh := append([]nt(nil), notes[consumed:]...)
+		consumed = len(notes)
+		mu.Unlock()
+		for _, x := range fresh {
+			d, ok := deadline[x.key]
+			switch {
+			case x.rs != theine.EXPIRED:
+				fail("unexpected-notification", fmt.Sprintf("key %d notified as %s", x.key, reasonName(x.rs)))
+			case !ok:
+				fail("expired-twice-or-unknown", fmt.Sprintf("EXPIRED for key %d, which is not a live restored TTL entry", x.key))
+			case x.at < d:
+				fail("expired-early", fmt.Sprintf("key %d reported EXPIRED %d ns before its restored deadline", x.key, d-x.at))
+			default:
+				r.Count("restored_entries_expired_on_time", 1)
+			}
+			delete(deadline, x.key)
+		}
+		for k, d := range deadline {
+			if d+finestTick <= now && !late[k] {
+				late[k] = true
+				fail("late-reclaim/restored-entry", fmt.Sprintf("key %d: restored deadline %d, still resident at tick time %d = %.1f s late (allowed: one finest tick after the deadline at the next tick)", k, d, now, float64(now-d)/1e9))
+			}
+		}
+	}
+	r.Eval(1)
+	r.Count("reclaim_after_load_rounds", 1)
+	r.Distinct(fmt.Sprintf("reclaim-after-load/%v", uptime))
+}
+
 // c11DeadlineRightAfterLoad: a cache that has been up for a while (its clock origin lies d back) saves entries whose
 // deadlines fall a few hundred milliseconds after the load. The loaded cache adopts the saved origin; from that
 // moment its clock says "d + a little", and a Get issued once the clock has passed an entry's restored deadline
@@ -589,6 +697,11 @@ func runC11(r *Run) {
 	for i := 0; i < r.Pick(8, 64); i++ {
 		if i%r.NShards == r.Shard {
 			c11DeadlineRightAfterLoad(r, i)
+		}
+	}
+	for i := 0; i < r.Pick(16, 160); i++ {
+		if i%r.NShards == r.Shard {
+			c11ReclaimAfterLoad(r, i)
 		}
 	}
 	r.Rule("case = one round trip: a cache filled by a generated workload (uniform / recency-biased / frequency-biased / alternating phases, so the adaptive window-protected split moves), saved with the real SaveCache after d of virtual time, loaded with the real LoadCache into a cache of the same / larger / smaller MaxSize, regions compared element by element. Non-trivial = every round trip; distinct by (types, split moved, cost mix, TTL mix, target ratio, elapsed class)")
